@@ -166,6 +166,8 @@ func checkAllowedByAuthEvents(
 	missingAuth EventProvider, userIDForSender spec.UserIDForSender,
 ) error {
 	authEvents, _ := NewAuthEvents(nil)
+	// The event that was cited for each (type, state_key), by ID.
+	citedTuples := map[StateKeyTuple]string{}
 
 	for _, ae := range event.AuthEventIDs() {
 	retryEvent:
@@ -208,7 +210,19 @@ func checkAllowedByAuthEvents(
 			}
 		} else if authEvent != nil {
 			// We had an entry in the map and it contains an actual event, so add it to
-			// the auth events provider.
+			// the auth events provider. Two different auth events for the same
+			// (type, state_key) are refused (auth rule 2.1): the provider would keep the
+			// last one only, so the sender could choose by which one it is judged.
+			if sk := authEvent.StateKey(); sk != nil {
+				tuple := StateKeyTuple{EventType: authEvent.Type(), StateKey: *sk}
+				if prev, dup := citedTuples[tuple]; dup && prev != authEvent.EventID() {
+					return fmt.Errorf(
+						"gomatrixserverlib: event with ID %q has two auth events for (%q, %q)",
+						event.EventID(), tuple.EventType, tuple.StateKey,
+					)
+				}
+				citedTuples[tuple] = authEvent.EventID()
+			}
 			if err := authEvents.AddEvent(authEvent); err != nil {
 				return err
 			}
